@@ -248,12 +248,31 @@ func Run(c *hx.Ctx) {
 				c.Report("C06/restart-fails", "NewManager failed after "+o.Verb)
 			} else {
 				hm, dm := w.env.M.VerifLastSubmitted()
-				if hm < w.lastHwm || dm < w.lastDwm {
-					c.Report("C06/watermark/decreased-across-restart", fmt.Sprintf("%d/%d -> %d/%d", w.lastHwm, w.lastDwm, hm, dm))
+				inc := w.env.M.GetDAIncludedHeight()
+				if o.Verb == "restart" || keep == n {
+					// nothing was lost: what was recorded before the restart must still be there
+					if hm < w.lastHwm || dm < w.lastDwm {
+						c.Report("C06/watermark/decreased-across-restart", fmt.Sprintf("%d/%d -> %d/%d", w.lastHwm, w.lastDwm, hm, dm))
+					}
+					if inc < w.lastInc {
+						c.Report("C07/da-included/decreased-across-restart", fmt.Sprintf("%d -> %d", w.lastInc, inc))
+					}
+				} else {
+					// the process died before the dropped writes: the recorded values are those of the image
+					pre := func(k string) uint64 {
+						if b, ok := img["/m/"+k]; ok {
+							return be(b)
+						}
+						return 0
+					}
+					if hm < pre("last-submitted-header-height") || dm < pre("last-submitted-data-height") {
+						c.Report("C06/watermark/decreased-across-restart", fmt.Sprintf("image %d/%d -> %d/%d", pre("last-submitted-header-height"), pre("last-submitted-data-height"), hm, dm))
+					}
+					if inc < pre("d") {
+						c.Report("C07/da-included/decreased-across-restart", fmt.Sprintf("image %d -> %d", pre("d"), inc))
+					}
 				}
-				if inc := w.env.M.GetDAIncludedHeight(); inc < w.lastInc {
-					c.Report("C07/da-included/decreased-across-restart", fmt.Sprintf("%d -> %d", w.lastInc, inc))
-				}
+				w.lastHwm, w.lastDwm, w.lastInc = hm, dm, inc
 			}
 		default:
 			c.Emit("bad-op")
@@ -497,11 +516,18 @@ func (w *World) monitorInclusion(fin []uint64) {
 		}
 		if len(d.Txs) > 0 {
 			ds := w.onDA("d", k)
+			// the data marks are keyed by the commitment, which two blocks with the same transaction list share
+			shared := ""
+			for j := e.Options.InitialHeight; j <= e.Height(); j++ {
+				if _, dj, err := e.Store.GetBlockData(ctx, j); err == nil && j != k && len(dj.Txs) > 0 && string(dj.DACommitment()) == string(d.DACommitment()) {
+					shared = "/commitment-shared-by-two-blocks"
+				}
+			}
 			if len(ds) == 0 {
-				c.Report("C07/sound/data-not-on-da", fmt.Sprintf("height %d reported DA-included", k))
+				c.Report("C07/sound/data-not-on-da"+shared, fmt.Sprintf("height %d reported DA-included", k))
 			}
 			if !contains(ds, rd) {
-				c.Report("C07/recorded-da-height/data", fmt.Sprintf("height %d recorded %d, blobs at %v", k, rd, ds))
+				c.Report("C07/recorded-da-height/data"+shared, fmt.Sprintf("height %d recorded %d, blobs at %v", k, rd, ds))
 			}
 		}
 	}
